@@ -201,11 +201,12 @@ let reachable (c : cfg) (setup : op list) (progs : op list list) (limit : int) :
   let (s0, th0) = run_thread (nat_of_int (16 * (List.length setup + 1))) c shared0 (thread0 setup) in
   let setup_out = List.rev th0.t_out in
   let base = th0.t_slots in
-  let x0 = { sh = s0; ths = List.map (fun p -> { t_pc = PIdle; t_prog = p; t_slots = base; t_out = [] }) progs } in
+  let x0 = { sh = s0; ths = List.map (fun p -> { t_pc = PIdle; t_prog = p; t_slots = base; t_out = []; t_asked = []; t_cur = None; t_acct = [] }) progs } in
   let visited : (string, unit) Hashtbl.t = Hashtbl.create 65536 in
   let finals : (string, unit) Hashtbl.t = Hashtbl.create 64 in
   let stack = Stack.create () in
-  let key (x : sys) = Marshal.to_string x [Marshal.No_sharing] in
+  (* the clients' ghost bookkeeping does not influence any step: leave it out of the state identity *)
+  let key (x : sys) = Marshal.to_string { x with ths = List.map (fun th -> { th with t_asked = []; t_cur = None; t_acct = [] }) x.ths } [Marshal.No_sharing] in
   let push x = let k = key x in
     if not (Hashtbl.mem visited k) then begin
       Hashtbl.add visited k ();
